@@ -39,7 +39,7 @@ impl MerkleTree {
 }
 
 impl MerkleTree {
-    // ASSUMED here (flat-tree iterator loops; to be proved in unit merkle): touches only the pending-write bookkeeping
+    // ASSUMED here (commit_truncation is not under contract in any unit; flush_nodes is proved in unit merkle_create): touches only the pending-write bookkeeping
     #[verifier::external_body]
     pub fn commit_truncation(&mut self, changeset: &MerkleTreeChangeset)
         ensures final(self).roots == old(self).roots, final(self).length == old(self).length, final(self).byte_length == old(self).byte_length,
@@ -130,7 +130,7 @@ pub open spec fn is_node_write(info: StoreInfo) -> bool {
 }
 
 impl MerkleTreeChangeset {
-    // ASSUMED here (leaf hash + mountain-range merge; to be proved in unit merkle)
+    // ASSUMED here (leaf hash + mountain-range merge; PROVED in unit merkle against a stronger contract)
     #[verifier::external_body]
     pub fn append(&mut self, data: &[u8]) -> (r: usize)
         requires old(self).length < 0xffff_ffff_ffff, old(self).byte_length + data@.len() <= u64::MAX, old(self).batch_length < u64::MAX
@@ -144,7 +144,7 @@ impl MerkleTreeChangeset {
             (forall|i: int| 0 <= i < old(self).nodes@.len() ==> (#[trigger] old(self).nodes@[i]).hash@.len() == 32)
                 ==> (forall|i: int| 0 <= i < final(self).nodes@.len() ==> (#[trigger] final(self).nodes@[i]).hash@.len() == 32)
     { unimplemented!() }
-    // ASSUMED here (BLAKE2b tree hash + Ed25519 signature are uninterpreted; to be refined in unit merkle)
+    // ASSUMED here (BLAKE2b tree hash + Ed25519 signature are uninterpreted; PROVED in unit merkle against the signing scheme)
     #[verifier::external_body]
     pub fn hash_and_sign(&mut self, signing_key: &SigningKey)
         ensures final(self).hash is Some && final(self).hash->Some_0@.len() == 32 && final(self).signature is Some,
@@ -155,7 +155,8 @@ impl MerkleTreeChangeset {
     { unimplemented!() }
 }
 
-// ---- ASSUMED tree read contracts (to be replaced by proofs in unit merkle) -------------------------------------
+// ---- ASSUMED tree read contracts as seen by core.rs; the functions are PROVED in unit merkle_create, where `boff` plays the
+// ---- role of `blk_off` and the equalities below hold under the size-consistency assumption A-sized (DESIGN 10.4) ----------
 pub mod tree_model {
 use vstd::prelude::*;
 /// byte offset of block i in the data file as recorded by the stored tree nodes (ghost model of the tree file);
@@ -205,7 +206,8 @@ pub open spec fn verified_changeset(t: &MerkleTree, cs: &MerkleTreeChangeset) ->
     &&& !cs.upgraded ==> cs.length == t.length && cs.byte_length == t.byte_length && cs.fork == t.fork
 }
 impl MerkleTree {
-    // ASSUMED here; to be proved in unit merkle
+    // ASSUMED here as seen by core.rs; PROVED in units merkle / merkle_create against their own, stronger contracts (which also
+    // carry the representation invariants of the tree as preconditions - core.rs callers are not shown to establish them)
     #[verifier::external_body]
     pub fn verify_proof(&mut self, proof: &Proof, public_key: &VerifyingKey, infos: Option<&[StoreInfo]>)
         -> (r: Result<Either<Box<[StoreInfoInstruction]>, MerkleTreeChangeset>, HypercoreError>)
@@ -224,7 +226,8 @@ impl MerkleTree {
 }
 
 impl MerkleTree {
-    // ASSUMED here; to be proved in unit merkle
+    // ASSUMED here as seen by core.rs; PROVED in units merkle / merkle_create against their own, stronger contracts (which also
+    // carry the representation invariants of the tree as preconditions - core.rs callers are not shown to establish them)
     #[verifier::external_body]
     pub fn create_valueless_proof(&mut self, block: Option<&RequestBlock>, hash: Option<&RequestBlock>, seek: Option<&RequestSeek>,
         upgrade: Option<&RequestUpgrade>, infos: Option<&[StoreInfo]>)
@@ -255,7 +258,8 @@ impl ValuelessProof {
 }
 
 impl MerkleTree {
-    // ASSUMED here; to be proved in unit merkle
+    // ASSUMED here as seen by core.rs; PROVED in units merkle / merkle_create against their own, stronger contracts (which also
+    // carry the representation invariants of the tree as preconditions - core.rs callers are not shown to establish them)
     #[verifier::external_body]
     pub fn open(header_tree: &HeaderTree, infos: Option<&[StoreInfo]>) -> (r: Result<Either<Box<[StoreInfoInstruction]>, MerkleTree>, HypercoreError>)
         ensures
